@@ -70,14 +70,14 @@ type Msg struct {
 
 // Stats are the cumulative counters of a worker.
 type Stats struct {
-	Evaluations  int64            `json:"evaluations"`
-	Cases        int64            `json:"cases"`
-	NextIdx      int              `json:"next_idx"`
-	Inconclusive int64            `json:"inconclusive"`
-	Counters     map[string]int64 `json:"counters"`
+	Evaluations  int64               `json:"evaluations"`
+	Cases        int64               `json:"cases"`
+	NextIdx      int                 `json:"next_idx"`
+	Inconclusive int64               `json:"inconclusive"`
+	Counters     map[string]int64    `json:"counters"`
 	Sets         map[string][]string `json:"sets"`
-	DistinctFile string           `json:"distinct_file,omitempty"`
-	Exhausted    bool             `json:"exhausted"` // the shard's enumeration ran to completion
+	DistinctFile string              `json:"distinct_file,omitempty"`
+	Exhausted    bool                `json:"exhausted"` // the shard's enumeration ran to completion
 }
 
 // Ctx is the worker-side context of one shard of one property's check.
